@@ -16,6 +16,7 @@ git apply $M/patch.diff
 echo "== existing workspace tests WITH change (expect all ok)" >> $LOG
 cargo test --workspace --offline -j 8 -- --skip "$SKIP" 2>&1 | grep -E "^test result|FAILED|panicked|^error" >> $LOG; echo "exit=$?" >> $LOG
 rm -rf $CARGO_TARGET_DIR
+unset CARGO_TARGET_DIR
 for c in "$@"; do
   echo "== check $c against the changed worktree" >> $LOG
   /verif/tools/scratch_check.sh $WT /tmp/sc-$PID $c quick 2>&1 | cut -c1-300 | tail -25 >> $LOG; echo "exit=$?" >> $LOG
